@@ -248,11 +248,11 @@ theorem readAttr_simA {F : Prop} {p : Nat} (t u : Tokenizer) (save : Bool) (c : 
     rw [hks, hke]
     cases save
     · rfl
-    · simp only [Bool.true_and]
-      by_cases h : u2.pkS = u2.pkE
-      · rw [h]; simp
-      · have : ¬ p + u2.pkS = p + u2.pkE := by omega
-        simp [h, this]
+    · have : (p + u2.pkS != p + u2.pkE) = (u2.pkS != u2.pkE) := by
+        rw [Bool.eq_iff_iff]
+        simp only [bne_iff_ne, ne_eq]
+        omega
+      rw [this]
   rw [hcond]
   by_cases hc : (save && u2.pkS != u2.pkE) = true
   · rw [if_pos hc, if_pos hc]
@@ -366,6 +366,36 @@ theorem readTag_simA {F : Prop} {p : Nat} (t u : Tokenizer) (save : Bool) (c : C
   · sifA [h2]; exact sv2
   · sifA [h2] at e ⊢
     exact tagAttrsGo_simA _ _ save sk a2.ok e sv2
+
+/-! ### `read_start_tag` keeps the attribute list of `read_tag` -/
+
+theorem startTagRaw_keep (t : Tokenizer) : (startTagRaw t).attrs = t.attrs ∧ (startTagRaw t).nAttrRet = t.nAttrRet := by
+  unfold startTagRaw
+  split
+  · simp only []
+    split
+    · exact ⟨rfl, rfl⟩
+    · exact ⟨rfl, rfl⟩
+    · split
+      · exact ⟨rfl, rfl⟩
+      · split <;> exact ⟨rfl, rfl⟩
+  · exact ⟨rfl, rfl⟩
+
+theorem readStartTag_keep (t : Tokenizer) :
+    (readStartTag t).1.attrs = (readTag t true).attrs ∧ (readStartTag t).1.nAttrRet = (readTag t true).nAttrRet := by
+  have k := startTagRaw_keep (readTag t true)
+  unfold readStartTag
+  simp only
+  (repeat' split) <;> first | exact ⟨rfl, rfl⟩ | exact k
+
+theorem readStartTag_simA {F : Prop} {p : Nat} (t u : Tokenizer) (c : Core F p t u) (ok : Ok u) (h2 : 2 ≤ u.rawE)
+    (e : EO F (readStartTag u).1) : Sav p (readStartTag t).1 (readStartTag u).1 := by
+  have er : EO F (readTag u true) := e.back (fun h => by
+    unfold readStartTag; simp only; simp [h])
+  have r := readTag_simA t u true c ok (by omega) er
+  have kt := readStartTag_keep t
+  have ku := readStartTag_keep u
+  exact ⟨by rw [kt.1, ku.1]; exact r.attrs, by rw [kt.2, ku.2]; exact r.n⟩
 
 end Tokenizer
 end Rio.Html
